@@ -100,6 +100,8 @@ type Model struct {
 	cfg   *Cfg
 	Slots []MEnt
 	Regs  []Reg
+	// matchedBefore: the slots matched by the last batch operation (at call time)
+	matchedBefore []int
 }
 
 func (m *Model) clone() *Model {
@@ -561,6 +563,7 @@ func (m *Model) Step(op wx.Op) Expect {
 		return set(c, why)
 	case OpBatchRemoveEnt:
 		ms := m.matched(op.A)
+		m.matchedBefore = ms
 		ex.Count = len(ms)
 		for _, s := range ms {
 			m.Slots[s].Alive = false
